@@ -197,7 +197,11 @@ impl WTClient {
     /// Sets the tower status to any of the `TowerStatus` variants.
     pub fn set_tower_status(&mut self, tower_id: TowerId, status: TowerStatus) {
         if let Some(tower) = self.towers.get_mut(&tower_id) {
-            if tower.status != status {
+            if tower.status.is_misbehaving() && !status.is_misbehaving() {
+                // There is a stored proof against this tower: nothing that happens later (e.g. the answer to a request that
+                // was already in flight) makes it trustworthy again.
+                log::warn!("{tower_id} is misbehaving. Not changing its status to {status}");
+            } else if tower.status != status {
                 tower.status = status
             } else {
                 log::debug!("{tower_id} status is already {status}")
